@@ -78,11 +78,26 @@ package crypto
 //@           pv.LastSignState.Signature == proposal.Signature                                                  [C20]
 //@   assert@store(Proposal.Signature,2): disk[pv.LastSignState.filePath] == lssenc(proposal.Height, proposal.Round, 1, $value, signBytes)   [C20]
 
+// the address a signature speaks for: the key recovered from the signature over the hash of exactly this message
+// (verified against the trusted recovery/compression/address primitives; the recovery runs on every call)
 //@ func Sig2Addr(msg, sig)
-//@   trusted
-//@   pure
+//@   nopanic
+//@   modifies nothing
+//@   allocates bytes
 //@   ensures result2 == nil ==> len(result0) == 20 && content(result0) == sigaddr(content(msg), content(sig)) && sig != nil
 //@   ensures result2 != nil ==> result0 == nil && result1 == nil
+//@   assert@call(SigToPub,0): content($arg0) == sha256of(content(msg)) && $arg1 == sig                           [C03]
+//@   must@call(SigToPub,0): true                                                                                [C03]
+
+//@ func Pub2Addr(pub)
+//@   trusted
+//@   pure
+//@   ensures pub != nil ==> result != nil && len(result) == 20 && content(result) == addrofkey(pub)
+
+//@ func CompressPubkey(pub)
+//@   trusted
+//@   pure
+//@   ensures pub != nil ==> result != nil
 
 // ---- start-up (C20): an existing key is loaded together with its last-sign record and both are written back as
 // loaded (never reset); a fresh key starts from the zero record
